@@ -40,6 +40,12 @@ _dispatch_verif_tid_self(void)
 	return _dispatch_lock_value_for_self();
 }
 
+DV_EXPORT uint64_t
+_dispatch_verif_timeout(dispatch_time_t when)
+{
+	return _dispatch_timeout(when);
+}
+
 enum {
 	DV_DQ_DRAIN_TRY_LOCK = 1,      // arg = invoke flags; ret = owned
 	DV_DQ_TRY_ACQUIRE_BARRIER_SYNC,// arg = tid; ret = bool
